@@ -66,10 +66,18 @@ def _probe(args):
         for method in ("1site", "2site"):
             mm = m.copy()
             mm.compress_config = CompressConfig(CompressCriteria.fixed, max_bonddim=32)
-            mm.compress_config.vmethod = method
+            mm.compress_config.vmethod = method.split("-")[0]
             mm.compress_config.vprocedure = [[32, 0.3]] * 4 + [[32, 0.0]] * 12
             mm.compress_config.vrtol = 1e-12
-            got = mm.variational_compress(uni.mpo["H"]["fresh"])
+            if method == "2site-poor-guess":
+                # a low-rank random initial guess and plain sweeps only: the bonds have to grow sweep by sweep, so the
+                # convergence test must really compare successive sweeps (the configuration is read from the guess)
+                g = st.random_mps(uni.model, 1, 2, (seed, "c04-var-guess", k))
+                g.compress_config = mm.compress_config.copy()
+                g.compress_config.vprocedure = [[32, 0.0]] * 16
+                got = mm.variational_compress(uni.mpo["H"]["fresh"], guess=g)
+            else:
+                got = mm.variational_compress(uni.mpo["H"]["fresh"])
             err = np.linalg.norm(st.dense(got) - exact) / (np.linalg.norm(exact) + 1e-300)
             out["cases"].append(f"var/{method}/{k}")
             if err > 1e-6:
@@ -79,6 +87,27 @@ def _probe(args):
     except Exception as e:
         import traceback
         out["viol"].append(("C04:variational-raises", f"{type(e).__name__}: {e} {traceback.format_exc(limit=2)}", {"k": k}))
+    # ---- the same on a longer chain from a rank-1 guess with plain sweeps only: the bonds of the result have to grow over
+    # several sweeps (x2 per two-site sweep), so the convergence test has to compare SUCCESSIVE sweeps
+    if k % 4 == 0:
+        try:
+            uni8 = rh.get_universe("elec", 8, "mps", 4, seed, 60 + k % 2)
+            m8 = st.random_mps(uni8.model, 4, 6, (seed, "c04-var8", k))
+            m8.ensure_left_canonical()
+            exact = uni8.dense_op["H"] @ st.dense(m8)
+            g = st.random_mps(uni8.model, 4, 1, (seed, "c04-var8-guess", k))
+            g.compress_config = CompressConfig(CompressCriteria.fixed, max_bonddim=32)
+            g.compress_config.vmethod = "2site"
+            g.compress_config.vprocedure = [[32, 0.0]] * 16
+            g.compress_config.vrtol = 1e-12
+            got = m8.variational_compress(uni8.mpo["H"]["fresh"], guess=g)
+            err = np.linalg.norm(st.dense(got) - exact) / (np.linalg.norm(exact) + 1e-300)
+            out["cases"].append(f"var8/{k}")
+            if err > 1e-6:
+                out["viol"].append(("C04:variational:2site-rank1-guess", f"variational_compress(H, guess of rank 1, 16 plain sweeps, bond 32) differs from H|psi> by relative {err:.2e}", {"k": k}))
+        except Exception as e:
+            import traceback
+            out["viol"].append(("C04:variational8-raises", f"{type(e).__name__}: {e} {traceback.format_exc(limit=2)}", {"k": k}))
     return out
 
 
